@@ -176,6 +176,17 @@ func (r *Rng) pickPerm(dir bool) uint32 {
 func (r *Rng) pickID() int { return idPool[r.intn(len(idPool))] }
 
 func randData(r *Rng) string {
+	// now and then a body at a copy-buffer boundary: all zero, or ending in a zero block
+	if r.chance(1, 60) {
+		n := []int{32768, 65536, 32769}[r.intn(3)]
+		b := make([]byte, n)
+		if r.chance(1, 2) {
+			for i := 0; i < n-32768; i++ {
+				b[i] = byte('a' + i%26)
+			}
+		}
+		return string(b)
+	}
 	n := r.intn(12)
 	b := make([]byte, n)
 	for i := range b {
